@@ -13,10 +13,10 @@ char *base_file = "base.c";
 // pack a spelling of <= 7 bytes into an integer; written as straight-line expressions so that
 // symbolic execution folds it in a handful of steps for string literals
 static int64_t verif_spell(const char *s) {
-  int n = !s[0] ? 0 : !s[1] ? 1 : !s[2] ? 2 : !s[3] ? 3 : !s[4] ? 4 : !s[5] ? 5 : !s[6] ? 6 : !s[7] ? 7 : 8;
+  int64_t v = 0;
+  int n = 0;
+  while (n < 8 && s[n]) { v |= (int64_t)(unsigned char)s[n] << (8 * n); n++; }
   if (n > 7) return -1;       // longer spellings are not representable: no harness token has one
-#define VSB(i) ((int64_t)(n > (i) ? (unsigned char)s[i] : 0) << (8 * (i)))
-  int64_t v = VSB(0) | VSB(1) | VSB(2) | VSB(3) | VSB(4) | VSB(5) | VSB(6);   // 7 bytes + length nibble fit in 63 bits
   return (v << 4) | n;
 }
 #ifdef VERIF_PACKED_SPELLING
